@@ -40,6 +40,12 @@ CHECKS = {
  "C11": dict(cat="model_checking", tech="schedule enumeration at the single prctl/seccomp seam: forced goroutine migration via the seam hook, in fresh privileged/unprivileged children",
    text="{root, uid 65534} x NoNewPrivs x 4 flag words x loader goroutine placement x {stay, forced migration to another OS thread with/without idle-thread pool}; the migration manoeuvre is first shown to work on an unpinned control goroutine in the same child; observed: LoadFilter result, installing tid and its no_new_privs bit at the seam, per-thread bits/filters before and after.",
    note="Limit: placements, not instruction-level preemption, are enumerated; if the loader is wired to its thread migration is impossible and the property holds by construction.", ref="DESIGN.md C11"),
+ "C12": dict(cat="exploration", tech="exhaustive finite enumeration of all table entries, aliases and spellings against vendored independent oracles",
+   text="Every (number,name)/(name,number) entry of the five tables is checked for mutual inversion and unambiguity and compared with every independent source listing the name (kernel UAPI unistd headers, Go syscall tables, x/sys v0.48 tables); every architecture variable's ID against AUDIT_ARCH_*; every alias in all single-letter case variants; 31 table-less/unknown names must be unsupported; table contents compared across 8 (thorough 32) fresh processes.",
+   note="Trusted: oracles.json (generated by oracles/gen.py from this image's headers and Go sources; provenance recorded). A source that does not list a name says nothing about it (50 entries have no oracle).", ref="DESIGN.md C12"),
+ "C19": dict(cat="exploration", tech="exhaustive configuration enumeration: all GOOS/GOARCH targets built by the real compiler with overlay-added compile-time constant assertions; AST facts of the stubs",
+   text="All 49 targets of `go tool dist list` are built (thorough: vetted) with an overlay file per package asserting every declared constant (numeric and string) equals the vendored Linux UAPI value; loader/stub file selection from go list; stub file parsed (no imports, no calls, Supported returns literal false); GetInfo(goarch) has a table exactly for 386/amd64/arm/arm64.",
+   note="Limit: foreign targets are compiled and constant-evaluated, not executed. ENOSYS expected 89 on linux/mips*, 38 elsewhere.", ref="DESIGN.md C19"),
 }
 
 ALL = ["C%02d" % i for i in range(1, 20)]
